@@ -99,7 +99,11 @@ class DictDecoder:
         if not data:
             raise ParserError("Document is empty, can not detect type")
 
-        keys = data[0].keys() if isinstance(data, list) else data.keys()
+        first = data[0] if isinstance(data, list) else data
+        if not isinstance(first, dict):
+            raise ParserError("Document must be an object or an array of objects")
+
+        keys = first.keys()
         clazz: type[T] | None = self.context.find_type_by_fields(set(keys))
 
         if clazz:
@@ -138,7 +142,7 @@ class DictDecoder:
                 continue
 
             if var.wrapper:
-                value = value[var.local_name]
+                value = self.unwrap_value(clazz, var, value)
 
             value = self.bind_value(meta, var, value)
             if var.init:
@@ -150,6 +154,26 @@ class DictDecoder:
             return self.config.class_factory(clazz, params)
         except TypeError as e:
             raise ParserError(e)
+
+    def unwrap_value(self, clazz: type, var: XmlVar, value: Any) -> Any:
+        """Return the value inside the wrapper object of the field.
+
+        Raises:
+            ParserError: if the value is not the wrapper object, or the wrapper
+                includes unknown properties and the config is strict.
+        """
+        if not isinstance(value, dict) or var.local_name not in value:
+            raise ParserError(
+                f"Expected the wrapper object of {clazz.__qualname__}.{var.name}"
+            )
+
+        if self.config.fail_on_unknown_properties and len(value) > 1:
+            unknown = next(key for key in value if key != var.local_name)
+            raise ParserError(
+                f"Unknown property {clazz.__qualname__}.{var.wrapper}.{unknown}"
+            )
+
+        return value[var.local_name]
 
     def bind_derived_dataclass(self, data: dict, clazz: type[T]) -> Any:
         """Bind the input data to the given class type.
@@ -171,6 +195,9 @@ class DictDecoder:
         qname = data["qname"]
         xsi_type = data["type"]
         params = data["value"]
+
+        if not isinstance(params, dict):
+            raise ParserError("Derived element value must be an object")
 
         generic = self.context.class_type.derived_element
 
